@@ -19,6 +19,8 @@ mod ops_codec;
 mod ops_milu;
 #[path = "ops_dispatch.rs"]
 mod ops_dispatch;
+#[path = "ops_config.rs"]
+mod ops_config;
 
 thread_local! {
     static LAST_PANIC: RefCell<String> = RefCell::new(String::new());
@@ -38,6 +40,7 @@ pub async fn run_line(line: &str) -> String {
         "lb_seq" => ops_dispatch::lb_seq(&args).await,
         "lb_stress" => ops_dispatch::lb_stress(&args).await,
         "idle_check" => ops_dispatch::idle_check(&args),
+        "config_load" => ops_config::config_load(&args).await,
         "milu_parse" => ops_milu::milu_parse(&args),
         "milu_eval" => ops_milu::milu_eval(&args),
         "req_texts" => ops_milu::req_texts(&args),
